@@ -133,6 +133,213 @@ def inline_into(F, body, newset, stack=(), depth=0, closure_alias=None):
     return nb
 
 
+def _succs(t):
+    k = t.get('k')
+    if k in ('goto', 'falseedge', 'falseunwind'):
+        return [t['t']]
+    if k == 'switch':
+        return [b for _, b in t['cases']] + [t['else']]
+    if k in ('call', 'drop', 'assert', 'yield'):
+        return [x for x in (t.get('t'),) if isinstance(x, int)]
+    return []
+
+
+def _const_of(rv, adts):
+    """('int', v) for a constant, ('variant', discr) for an enum literal, else None"""
+    if rv.get('k') == 'use' and rv['op'].get('k') == 'c' and isinstance(rv['op'].get('v'), int):
+        return ('int', rv['op']['v'])
+    if rv.get('k') == 'agg' and rv.get('ak') == 'adt' and 'vi' in rv:
+        a = adts.get(rv.get('adt'))
+        try:
+            d = int(a['variants'][rv['vi']]['discr']) if a else rv['vi']
+        except Exception:
+            d = rv['vi']
+        return ('variant', d)
+    return None
+
+
+def thread_jumps(body, adts, max_rounds=6, max_new=400):
+    """Jump threading for values that are constants on the way in: when a block sets a local to a constant (a bool, an enum
+    literal such as Some(..)/None/Ok/Err) and control then runs through straight-line blocks into a switch on that local (or on its
+    discriminant), the straight-line blocks are duplicated for this predecessor and the switch is replaced by the branch the
+    constant selects.  After inlining a helper `fn f(..) -> bool / Option<T>` this restores the path structure the un-factored code
+    had: what was guarded inside the helper stays guarded for the code after the call."""
+    blocks = body['blocks']
+    added = 0
+    events = []
+    for _ in range(max_rounds):
+        changed = False
+        n0 = len(blocks)
+        for xi in range(n0):
+            X = blocks[xi]
+            known = {}
+            if X['t'].get('k') == 'call':
+                # `None?` / `Err(e)?`: from_residual of an Option residual is None, of a Result residual an Err
+                f_ = X['t'].get('f') or {}
+                a_ = (X['t'].get('aty') or [''])[0]
+                if str(f_.get('fn', '')).endswith('FromResidual::from_residual') and not X['t']['dst'].get('p') and isinstance(X['t'].get('t'), int):
+                    if a_.startswith('core::option::Option<core::convert::Infallible'):
+                        known[X['t']['dst']['l']] = ('variant', 0)
+                    elif a_.startswith('core::result::Result<core::convert::Infallible'):
+                        known[X['t']['dst']['l']] = ('variant', 1)
+                if not known:
+                    continue
+            elif X['t'].get('k') != 'goto':
+                continue
+            # last plain definitions in X
+            for st in (X['s'] if X['t'].get('k') == 'goto' else []):
+                if st.get('k') != '=':
+                    continue
+                pl = st['pl']
+                if pl.get('p'):
+                    continue
+                c = _const_of(st['rv'], adts)
+                if c is not None:
+                    known[pl['l']] = c
+                elif st['rv'].get('k') == 'use' and st['rv']['op'].get('k') in ('cp', 'mv') and not st['rv']['op']['pl'].get('p') and st['rv']['op']['pl']['l'] in known:
+                    known[pl['l']] = known[st['rv']['op']['pl']['l']]
+                else:
+                    known.pop(pl['l'], None)
+            if not known:
+                continue
+            path = []
+            cur = X['t']['t']
+            env = dict(known)
+            found = None
+            for _step in range(8):
+                Cb = blocks[cur]
+                # statements of the straight-line block: track copies, forget redefinitions
+                disc = {}
+                for st in Cb['s']:
+                    if st.get('k') != '=':
+                        continue
+                    pl = st['pl']
+                    if pl.get('p'):
+                        continue
+                    rv = st['rv']
+                    if rv.get('k') == 'use' and rv['op'].get('k') in ('cp', 'mv') and not rv['op']['pl'].get('p') and rv['op']['pl']['l'] in env:
+                        env[pl['l']] = env[rv['op']['pl']['l']]
+                    elif rv.get('k') == 'discr' and not rv['pl'].get('p') and rv['pl']['l'] in env and env[rv['pl']['l']][0] == 'variant':
+                        env[pl['l']] = ('int', env[rv['pl']['l']][1])
+                    else:
+                        c = _const_of(rv, adts)
+                        if c is not None:
+                            env[pl['l']] = c
+                        else:
+                            env.pop(pl['l'], None)
+                t = Cb['t']
+                if t.get('k') == 'switch':
+                    d = t['d']
+                    if d.get('k') in ('cp', 'mv') and not d['pl'].get('p') and d['pl']['l'] in env and env[d['pl']['l']][0] == 'int':
+                        v = env[d['pl']['l']][1]
+                        tgt = dict((cv, cb) for cv, cb in t['cases']).get(v, t['else'])
+                        found = (cur, tgt)
+                    break
+                if t.get('k') in ('goto', 'falseedge') and cur != xi and cur not in path:
+                    path.append(cur)
+                    cur = t['t']
+                    continue
+                break
+            if not found or added > max_new:
+                continue
+            sw, tgt = found
+            # duplicate path + switch block for this predecessor
+            chain = path + [sw]
+            mp = {}
+            for b_ in chain:
+                mp[b_] = len(blocks)
+                blocks.append({'s': [dict(s_) for s_ in blocks[b_]['s']], 't': dict(blocks[b_]['t'])})
+                added += 1
+            for k_, b_ in enumerate(chain):
+                nb_ = blocks[mp[b_]]
+                if b_ == sw:
+                    nb_['t'] = {'k': 'goto', 't': tgt, 'ln': blocks[b_]['t'].get('ln'), 'thr': True}
+                else:
+                    nb_['t'] = dict(nb_['t'])
+                    nb_['t']['t'] = mp[chain[k_ + 1]]
+            X['t'] = dict(X['t'])
+            X['t']['t'] = mp[chain[0]]
+            changed = True
+            events.append((xi, [mp[b_] for b_ in chain], tgt, set(env)))
+        if not changed:
+            break
+    # single-assignment form for the threaded values: where the branch target is reached from this one predecessor only, the locals
+    # that carried the constant get fresh names on that path (definition in the predecessor, copies in the duplicated blocks, uses in
+    # the region only reachable through it), so that "the value here" resolves to the one definition that can reach it
+    def reach(start, cut=None):
+        seen, st_ = set(), [start]
+        while st_:
+            b_ = st_.pop()
+            if b_ in seen:
+                continue
+            seen.add(b_)
+            for s_ in _succs(blocks[b_]['t']):
+                if cut is not None and (b_, s_) == cut:
+                    continue
+                st_.append(s_)
+            u_ = blocks[b_]['t'].get('u')
+            if isinstance(u_, int):
+                st_.append(u_)
+        return seen
+    live = reach(0)
+    for xi, clones, tgt, locs in events:
+        E_ = clones[-1]
+        if xi not in live or E_ not in live:
+            continue
+        preds = [b_ for b_ in live if tgt in _succs(blocks[b_]['t']) or blocks[b_]['t'].get('u') == tgt]
+        if preds == [E_]:
+            without = reach(0, cut=(E_, tgt))
+            region = reach(tgt) - without
+        else:
+            # the target is shared with other paths: the carried locals can still be renamed on this path when nothing
+            # after the target looks at them (the None arm of an `if let Some(..)` does not look at the option)
+            region = set()
+            after = reach(tgt)
+            txt = {b_: json.dumps({'s': [st for st in blocks[b_]['s'] if st.get('k') not in ('live', 'dead')], 't': blocks[b_]['t']}) for b_ in after}
+            locs = set(l_ for l_ in locs if not any(('"l": %d}' % l_) in t_ or ('"l": %d,' % l_) in t_ or ('"idx": %d' % l_) in t_ for t_ in txt.values()))
+            if not locs:
+                continue
+        mapping = {}
+        for l_ in sorted(locs):
+            mapping[l_] = len(body['locals'])
+            body['locals'] = body['locals'] + [dict(body['locals'][l_])]
+
+        def rn(x):
+            if isinstance(x, dict):
+                y = {}
+                for k_, v_ in x.items():
+                    if k_ == 'l' and isinstance(v_, int) and not isinstance(v_, bool) and v_ in mapping:
+                        y[k_] = mapping[v_]
+                    elif k_ == 'idx' and isinstance(v_, int) and v_ in mapping:
+                        y[k_] = mapping[v_]
+                    else:
+                        y[k_] = rn(v_)
+                return y
+            if isinstance(x, list):
+                return [rn(v_) for v_ in x]
+            return x
+        # in the predecessor: from the first definition of one of the locals on
+        X = blocks[xi]
+        first = None
+        for j_, st in enumerate(X['s']):
+            if st.get('k') == '=' and not st['pl'].get('p') and st['pl']['l'] in mapping:
+                first = j_
+                break
+        if first is None and X['t'].get('k') != 'call':
+            continue
+        if first is not None:
+            X['s'] = X['s'][:first] + [rn(st) for st in X['s'][first:]]
+        if X['t'].get('k') == 'call':
+            nt_ = dict(X['t'])
+            nt_['dst'] = rn(X['t']['dst'])
+            X['t'] = nt_
+        for b_ in clones:
+            blocks[b_] = {'s': [rn(st) for st in blocks[b_]['s']], 't': rn(blocks[b_]['t'])}
+        for b_ in region:
+            blocks[b_] = {'s': [rn(st) for st in blocks[b_]['s']], 't': rn(blocks[b_]['t'])}
+    return body
+
+
 def normalise(F):
     """F.bodies after inlining every function that is not in the known set; returns the list of inlined helpers"""
     known = load_known()
@@ -146,7 +353,10 @@ def normalise(F):
     for p, b in F.bodies.items():
         if p in newset:
             continue
-        out[p] = inline_into(F, b, newset, (), 0, alias) if b.get('crate') in WS else b
+        nb_ = inline_into(F, b, newset, (), 0, alias) if b.get('crate') in WS else b
+        if nb_ is not b:
+            nb_ = thread_jumps(nb_, F.adts)
+        out[p] = nb_
     # closures of inlined helpers live on under the caller's name too
     for a, orig in alias.items():
         if orig in F.bodies and a not in out:
